@@ -1,8 +1,159 @@
-(* Properties/C04.v — t-tests and MeanCI.  ONLY statements. *)
+(* Properties/C04.v — t-tests and MeanCI return the textbook statistic, DoF and Student-t tails.
+   ONLY statements; each is closed by [exact] of a lemma from Proofs/TTest.v.
+   A test result is (N1, N2, sign of T, T^2, DoF) — the square root is never taken; mean_def and var_def
+   are the definitional mean (sum/n) and sample variance (sum of squared deviations / (n-1)).
+   The Student-t CDF is abstract (a function F with the stated hypotheses); the correspondence check
+   instantiates it with the implementation's own TDist{DoF}.CDF, whose accuracy is property C05. *)
 From MM Require Import Base.Num Model.TTest Proofs.TTest.
 Local Open Scope Q_scope.
 
+(* The Welford loops of sample.go compute the definitional mean and variance. *)
+Theorem C04_welford_mean_var : forall xs,
+  (xs <> [] -> w_mean xs == mean_def xs) /\ ((2 <= length xs)%nat -> w_variance xs == var_def xs).
+Proof. intros xs. split; [apply w_mean_eq | apply w_variance_eq]. Qed.
+Print Assumptions C04_welford_mean_var.
+
+(* TwoSampleTTest: pooled statistic and n1+n2-2 degrees of freedom. *)
+Theorem C04_pooled_T_textbook : forall x1 x2, (2 <= length x1)%nat -> (2 <= length x2)%nat ->
+  ~ (var_def x1 == 0 /\ var_def x2 == 0) ->
+  exists r, two_sample x1 x2 = TOk r /\
+    t_n1 r = zlen x1 /\ t_n2 r = zlen x2 /\
+    t_sign r = Qsign (mean_def x1 - mean_def x2) /\
+    t_sq r == (mean_def x1 - mean_def x2) * (mean_def x1 - mean_def x2) /
+              (((lenQ x1 - 1) * var_def x1 + (lenQ x2 - 1) * var_def x2) / (lenQ x1 + lenQ x2 - 2) * (1 / lenQ x1 + 1 / lenQ x2)) /\
+    t_dof r == lenQ x1 + lenQ x2 - 2.
+Proof. exact pooled_T_textbook. Qed.
+Print Assumptions C04_pooled_T_textbook.
+
+(* TwoSampleWelchTTest: unpooled statistic and Welch-Satterthwaite degrees of freedom. *)
+Theorem C04_welch_T_dof_textbook : forall x1 x2, (2 <= length x1)%nat -> (2 <= length x2)%nat ->
+  ~ (var_def x1 == 0 /\ var_def x2 == 0) ->
+  exists r, welch x1 x2 = TOk r /\
+    t_n1 r = zlen x1 /\ t_n2 r = zlen x2 /\
+    t_sign r = Qsign (mean_def x1 - mean_def x2) /\
+    (let a := var_def x1 / lenQ x1 in let b := var_def x2 / lenQ x2 in
+     t_sq r == (mean_def x1 - mean_def x2) * (mean_def x1 - mean_def x2) / (a + b) /\
+     t_dof r == (a + b) * (a + b) / (a * a / (lenQ x1 - 1) + b * b / (lenQ x2 - 1))).
+Proof. exact welch_T_dof_textbook. Qed.
+Print Assumptions C04_welch_T_dof_textbook.
+
+(* PairedTTest: the one-sample statistic of the differences against mu0, n-1 degrees of freedom. *)
+Theorem C04_paired_textbook : forall x1 x2 mu0, length x1 = length x2 -> (2 <= length x1)%nat ->
+  let d := vdiff x1 x2 in ~ var_def d == 0 ->
+  exists r, paired x1 x2 mu0 = TOk r /\
+    t_n1 r = zlen x1 /\ t_n2 r = zlen x2 /\
+    t_sign r = Qsign (mean_def d - mu0) /\
+    t_sq r == (mean_def d - mu0) * (mean_def d - mu0) * lenQ x1 / var_def d /\
+    t_dof r == lenQ x1 - 1.
+Proof. exact paired_textbook. Qed.
+Print Assumptions C04_paired_textbook.
+
+(* OneSampleTTest: T = (mean - mu0) sqrt(n) / s, n-1 degrees of freedom, N2 = 0. *)
+Theorem C04_one_sample_textbook : forall x mu0, (2 <= length x)%nat -> ~ var_def x == 0 ->
+  exists r, one_sample x mu0 = TOk r /\
+    t_n1 r = zlen x /\ t_n2 r = 0%Z /\
+    t_sign r = Qsign (mean_def x - mu0) /\
+    t_sq r == (mean_def x - mu0) * (mean_def x - mu0) * lenQ x / var_def x /\
+    t_dof r == lenQ x - 1.
+Proof. exact one_sample_textbook. Qed.
+Print Assumptions C04_one_sample_textbook.
+
+(* The documented errors are returned exactly on these inputs (w_variance is 0 for fewer than two values
+   and the definitional variance otherwise; zero variance means all values equal). *)
+Theorem C04_ttest_errors_iff : forall x1 x2 mu0,
+  ((two_sample x1 x2 = TErr ErrSampleSize <-> length x1 = 0%nat \/ length x2 = 0%nat) /\
+   (two_sample x1 x2 = TErr ErrZeroVariance <->
+      length x1 <> 0%nat /\ length x2 <> 0%nat /\ w_variance x1 == 0 /\ w_variance x2 == 0) /\
+   two_sample x1 x2 <> TErr ErrMismatchedSamples) /\
+  ((welch x1 x2 = TErr ErrSampleSize <-> (length x1 <= 1)%nat \/ (length x2 <= 1)%nat) /\
+   (welch x1 x2 = TErr ErrZeroVariance <->
+      (2 <= length x1)%nat /\ (2 <= length x2)%nat /\ w_variance x1 == 0 /\ w_variance x2 == 0) /\
+   welch x1 x2 <> TErr ErrMismatchedSamples) /\
+  ((paired x1 x2 mu0 = TErr ErrMismatchedSamples <-> length x1 <> length x2) /\
+   (paired x1 x2 mu0 = TErr ErrSampleSize <-> length x1 = length x2 /\ (length x1 <= 1)%nat) /\
+   (paired x1 x2 mu0 = TErr ErrZeroVariance <->
+      length x1 = length x2 /\ (2 <= length x1)%nat /\ w_variance (vdiff x1 x2) == 0)) /\
+  ((one_sample x1 mu0 = TErr ErrSampleSize <-> length x1 = 0%nat) /\
+   (one_sample x1 mu0 = TErr ErrZeroVariance <-> length x1 <> 0%nat /\ w_variance x1 == 0) /\
+   one_sample x1 mu0 <> TErr ErrMismatchedSamples).
+Proof.
+  intros. split; [apply two_sample_errors|]. split; [apply welch_errors|]. split; [apply paired_errors | apply one_sample_errors].
+Qed.
+Print Assumptions C04_ttest_errors_iff.
+
+Theorem C04_zero_variance_iff_constant : forall xs, (2 <= length xs)%nat ->
+  (var_def xs == 0 <-> forall x, In x xs -> x == mean_def xs).
+Proof. exact var_def_zero_iff. Qed.
+Print Assumptions C04_zero_variance_iff_constant.
+
+(* Swapping the samples: T -> -T, T^2 and DoF unchanged, N1 and N2 exchanged, same error if any
+   (paired test: with mu0 -> -mu0). *)
+Theorem C04_ttest_swap : forall x1 x2 mu0,
+  tout_rel tres_swapped (two_sample x1 x2) (two_sample x2 x1) /\
+  tout_rel tres_swapped (welch x1 x2) (welch x2 x1) /\
+  tout_rel tres_swapped (paired x1 x2 mu0) (paired x2 x1 (- mu0)).
+Proof. intros. split; [apply two_sample_swap | split; [apply welch_swap | apply paired_swap]]. Qed.
+Print Assumptions C04_ttest_swap.
+
+(* x -> a x + b with a > 0 applied to all data (mu0 -> a mu0 for the paired test, a mu0 + b for the
+   one-sample test): N1, N2, sign T, T^2, DoF and errors are unchanged. *)
+Theorem C04_ttest_affine_invariant : forall a b, 0 < a -> forall x1 x2 mu0,
+  let f := fun x => a * x + b in
+  tout_rel tres_same (two_sample x1 x2) (two_sample (map f x1) (map f x2)) /\
+  tout_rel tres_same (welch x1 x2) (welch (map f x1) (map f x2)) /\
+  tout_rel tres_same (paired x1 x2 mu0) (paired (map f x1) (map f x2) (a * mu0)) /\
+  tout_rel tres_same (one_sample x1 mu0) (one_sample (map f x1) (a * mu0 + b)).
+Proof.
+  intros a b Ha x1 x2 mu0 f. split; [apply two_sample_affine, Ha|]. split; [apply welch_affine, Ha|].
+  split; [apply paired_affine, Ha | apply one_sample_affine, Ha].
+Qed.
+Print Assumptions C04_ttest_affine_invariant.
+
+(* Tail selection: with T -> -T the one-sided p-values are exchanged and the two-sided one is unchanged,
+   for every F with F(-t) = 1 - F(t). *)
 Theorem C04_ttail_swap : forall F : Q -> Q, (forall a b, a == b -> F a == F b) -> (forall t, F (- t) == 1 - F t) ->
   forall t, ttail F (-1) (- t) == ttail F 1 t /\ ttail F 1 (- t) == ttail F (-1) t /\ ttail F 0 (- t) == ttail F 0 t.
 Proof. exact ttail_swap. Qed.
 Print Assumptions C04_ttail_swap.
+
+(* Every p-value lies in [0,1] (the two-sided one for monotone F). *)
+Theorem C04_ttail_range : forall F : Q -> Q, (forall a b, a == b -> F a == F b) -> (forall t, F (- t) == 1 - F t) ->
+  (forall t, 0 <= F t <= 1) -> forall t,
+  0 <= ttail F (-1) t <= 1 /\ 0 <= ttail F 1 t <= 1 /\
+  ((forall a b, a <= b -> F a <= F b) -> 0 <= ttail F 0 t <= 1).
+Proof. exact ttail_range. Qed.
+Print Assumptions C04_ttail_range.
+
+(* MeanCI: the symmetric interval whose half width t satisfies F(-t) = (1-c)/2 has content exactly c. *)
+Theorem C04_meanci_content : forall F : Q -> Q, (forall t, F (- t) == 1 - F t) ->
+  forall t c, F (- t) == (1 - c) / 2 -> F t - F (- t) == c.
+Proof. exact meanci_content. Qed.
+Print Assumptions C04_meanci_content.
+
+(* MeanCI edges: zero width for c <= 0; infinite for c >= 1 or n <= 1; otherwise t s/sqrt(n) with the
+   definitional variance and alpha = (1-c)/2; mean NaN exactly for empty input, else the definitional mean. *)
+Theorem C04_meanci_edges : forall xs c,
+  (c <= 0 -> snd (meanci xs c) = CIZero) /\
+  (0 < c -> (1 <= c \/ (length xs <= 1)%nat) -> snd (meanci xs c) = CIInf) /\
+  (0 < c -> c < 1 -> (2 <= length xs)%nat ->
+     snd (meanci xs c) = CIStudent (length xs) (w_variance xs) ((1 - c) / 2) /\ w_variance xs == var_def xs) /\
+  (xs = [] <-> fst (meanci xs c) = None) /\
+  (xs <> [] -> exists m, fst (meanci xs c) = Some m /\ m == mean_def xs).
+Proof. exact meanci_edges. Qed.
+Print Assumptions C04_meanci_edges.
+
+(* ---------- non-vacuity ---------- *)
+(* {1,2,3,4} vs {2,4,6,9}: pooled T^2 = 363/127 with 6 DoF, Welch the same T^2 (equal sizes) with DoF 48387/11849; T < 0 *)
+Example C04_two_sample_example :
+  two_sample [1; 2; 3; 4] [2; 4; 6; 9] = TOk (mkT 4 4 (-1) (363 # 127) 6) /\
+  welch [1; 2; 3; 4] [2; 4; 6; 9] = TOk (mkT 4 4 (-1) (363 # 127) (48387 # 11849)) /\
+  paired [1; 2; 3; 4] [2; 4; 6; 9] 0 = TOk (mkT 4 4 (-1) (363 # 35) 3) /\
+  one_sample [1; 2; 3; 4] 2 = TOk (mkT 4 0 1 (3 # 5) 3).
+Proof. vm_compute. repeat split; reflexivity. Qed.
+Example C04_errors_example :
+  two_sample [] [1; 2] = TErr ErrSampleSize /\ two_sample [3; 3] [5; 5; 5] = TErr ErrZeroVariance /\
+  welch [1] [1; 2] = TErr ErrSampleSize /\ paired [1; 2; 3] [1; 2] 0 = TErr ErrMismatchedSamples /\
+  paired [1; 2; 3] [3; 4; 5] 0 = TErr ErrZeroVariance /\ one_sample [7] 1 = TErr ErrZeroVariance /\
+  meanci [] (1 # 2) = (None, CIInf) /\ meanci [1; 2; 3] 0 = (Some 2, CIZero) /\
+  meanci [1; 2; 3] (19 # 20) = (Some 2, CIStudent 3 1 (1 # 40)) /\ meanci [1; 2; 3] 1 = (Some 2, CIInf).
+Proof. vm_compute. repeat split; reflexivity. Qed.
